@@ -60,6 +60,8 @@ func parseMarkdown(text string) []Block {
 	for i := 0; i < len(lines); i++ {
 		ln := lines[i]
 		switch {
+		case ln == "  ":
+			res = append(res, Block{Kind: 'L'}) // Markdown.LF(): a blank line for CommonMark
 		case strings.TrimSpace(ln) == "":
 		case ln == "---":
 			res = append(res, Block{Kind: 'R'})
@@ -86,6 +88,32 @@ func parseMarkdown(text string) []Block {
 		default:
 			res = append(res, Block{Kind: 'P', Text: ln})
 		}
+	}
+	return res
+}
+
+// commonMark applies the CommonMark block rules that change the section structure of this kind
+// of document: a paragraph line DIRECTLY followed by a line of dashes is a setext level-2 heading
+// (with a blank line in between the dashes are a thematic break), one directly followed by a line
+// of '=' a level-1 heading.
+func commonMark(bs []Block) []Block {
+	var res []Block
+	isEq := func(t string) bool { t = strings.TrimSpace(t); return t != "" && strings.Trim(t, "=") == "" }
+	for i := 0; i < len(bs); i++ {
+		b := bs[i]
+		if b.Kind == 'P' && i+1 < len(bs) {
+			if bs[i+1].Kind == 'R' {
+				res = append(res, Block{Kind: 'H', Level: 2, Text: b.Text})
+				i++
+				continue
+			}
+			if bs[i+1].Kind == 'P' && isEq(bs[i+1].Text) {
+				res = append(res, Block{Kind: 'H', Level: 1, Text: b.Text})
+				i++
+				continue
+			}
+		}
+		res = append(res, b)
 	}
 	return res
 }
@@ -224,7 +252,16 @@ func checkProperty(net *a.Network, blocks []Block, kinds map[string]int, maxDept
 		body  []Block
 	}
 	var secs []section
-	for _, b := range blocks {
+	h1 := 0
+	for _, b := range commonMark(blocks) {
+		if b.Kind == 'H' && b.Level == 1 {
+			h1++
+		}
+	}
+	if h1 != 1 {
+		add("sections-network", "%d level-1 headings (CommonMark reading), want 1", h1)
+	}
+	for _, b := range commonMark(blocks) {
 		if b.Kind == 'H' && b.Level == 2 {
 			secs = append(secs, section{title: b.Text})
 		} else if len(secs) > 0 {
